@@ -16,8 +16,8 @@ spec/sys/KeyLaws.tla states the laws as judgements over observations of a tuple 
   * every accessor returns the same value on every call; key.Parameters() is Equal to the parameters given.
 
 (M) MC_KeyLaws: every case (key, pair, triple, constructor refusal) of an abstract key space judged on a reference
-    implementation model (must be lawful) and on 20 faulty models ("Equal ignores a field", ...: each MUST be
-    rejected, by the law named in the specification);
+    implementation model (must be lawful) and on 21 faulty models ("Equal ignores a field", ...: each MUST be
+    rejected, by the law named in the specification; quick runs 9 of them, thorough all);
 (R) Plan_KeyLaws: TLC enumerates, per family, tuples of abstract keys from KeyParams.Cases (same, one-field-different
     for EVERY field and value, other material, other id, other kind, random mix) and every unordered pair of Go key
     types; harness/cmd/x05 builds the real objects (keyfactory; the public constructors called again with a key's
@@ -36,7 +36,7 @@ FAULTS = ["params_equal_ignores_hash", "key_equal_ignores_variant", "key_equal_i
           "crunchy_prefix_01", "legacy_prefix_01", "prefix_little_endian", "pubkey_other_encoding", "pubkey_drops_id",
           "id_zero_wildcard", "idreq_always_required", "hasidreq_ignores_prehash_variant", "equal_across_types",
           "equal_one_directional", "unstable_accessor", "accessor_returns_internal_slice", "accepts_nonzero_id", "parameters_not_kept", "kid_not_base64_of_id",
-          "private_equal_public_only"]
+          "private_equal_public_only", "unused_id_shows_in_accessor"]
 
 # KeyParams!Fields: every (family, field) must be the differing field of at least one executed case
 FIELDS = {
@@ -92,12 +92,21 @@ def expect_fault_rejected(ctx, fault):
     return fault, bad[0], r
 
 
+# quick tier: these fault models (the classic bugs) on every run, plus three of the others chosen by the seed; thorough: all
+CORE_FAULTS = ["params_equal_ignores_hash", "key_equal_ignores_variant", "key_equal_ignores_id", "crunchy_prefix_01",
+               "pubkey_other_encoding", "id_zero_wildcard"]
+
+
 def model_check(ctx):
     cfg = "MC_KeyLaws" if ctx.thorough else "MC_KeyLaws_quick"
+    faults = FAULTS
+    if not ctx.thorough:
+        rest = [f for f in FAULTS if f not in CORE_FAULTS]
+        faults = CORE_FAULTS + [rest[(ctx.seed * 3 + i) % len(rest)] for i in range(3)]
     with cf.ThreadPoolExecutor(max_workers=6) as ex:
         ref = ex.submit(ctx.model_check, "MC_KeyLaws", cfg, stage="M:reference model lawful (%s)" % cfg, workers=4, heap="4g",
                         timeout=2400, must_cover=False)
-        futs = [ex.submit(expect_fault_rejected, ctx, f) for f in FAULTS]
+        futs = [ex.submit(expect_fault_rejected, ctx, f) for f in faults]
         rejected = {}
         for f in futs:
             fault, law, r = f.result()
@@ -105,7 +114,7 @@ def model_check(ctx):
             ctx.cov["states"] += r.distinct
             ctx.cov["transitions"] += r.generated
         ref.result()
-    ctx.stage("M:faulty implementation models rejected", n=len(rejected), by_law=rejected)
+    ctx.stage("M:faulty implementation models rejected", n=len(rejected), of=len(FAULTS), by_law=rejected)
     ctx.log("M: reference model lawful; %d faulty models rejected, each by a law the specification names" % len(rejected))
 
 
@@ -265,7 +274,7 @@ def run(ctx):
     ctx.cov["rule"] = (
         "(M) every case of an abstract key space (6 families, every field over a small domain, 2 materials, 2 [3] ids: every key, "
         "every pair within a family and against a representative of every Go type, every triple of a sub-space, every "
-        "constructor-refusal case) on the reference model and on 20 faulty models; (R/T) per family 1 + 3 [40] base records "
+        "constructor-refusal case) on the reference model and on 9 [21] faulty models; (R/T) per family 1 + 3 [40] base records "
         "(canonical + TLC -seed sample of KeyParams!Cases): same-inputs triples, EVERY field x EVERY other documented value "
         "(quick: boundary-thinned, thorough: whole domain) keeping the key material, other material, 3 other ids, private vs "
         "public, a random second record, the constructor given a non-zero id; plus all 861 unordered pairs of the 42 Go key "
@@ -335,7 +344,7 @@ MANIFEST = dict(
           "(id, true) iff HasIDRequirement iff variant # NO_PREFIX, and no constructor lets a non-zero id into a key without id "
           "requirement; OutputPrefix / JWT KID are the documented functions of (variant, id); PublicKey() is stable, corresponds "
           "and IS the public key built from the same inputs; accessors are stable; Parameters() is what was given.  MC_KeyLaws "
-          "checks the judgements on a reference model and requires 20 faulty models to be rejected by the named law; "
+          "checks the judgements on a reference model and requires 21 faulty models to be rejected by the named law; "
           "Plan_KeyLaws enumerates tuples from KeyParams.Cases (one-field-different for every field and value) and every pair "
           "of Go key types; the driver builds the real objects and TLC judges every recorded relation."),
     note=("Growth check (not one of the 20 listed properties).  'doc:' judgements contradict godoc (VIOLATION), 'exp:' ones are "
